@@ -57,6 +57,7 @@ var mspecs = map[string]func(tier string) []*mc.MSpec{
 	"C07": mspecsC08, // every request mix on one resource: each request answered exactly once
 	"C08": mspecsC08,
 	"C09": mspecsC09,
+	"C10": mspecsC10,
 	"C11": mspecsC09, // two connections, the second may go away in any state
 }
 
